@@ -211,6 +211,11 @@ pub fn run_prop(a: &Args, prop: &str, pnum: u64) {
         let mut rng = Rng::for_case(a.seed, pnum, case as u64 + 1);
         // C16: a fifth of the grammars are bigger (more states: merges that orphan states, rows with
         // several reductions of one rule) or layered
+        if prop == "C16" && case % 10 == 9 {
+            let t = grammar::nullable_tail_family(&mut rng);
+            emit(&mut out, &dir, &t, true, "nullable_tail", prop);
+            continue;
+        }
         let g0 = if prop == "C16" && case % 5 == 1 {
             let big = GenCfg { precs: rng.chance(1, 3), max_rules: 6, max_toks: 5, max_prods: 4, max_len: 4 };
             grammar::random_grammar(&mut rng, &big)
